@@ -64,6 +64,61 @@ IMPORT_TIME = {"insns::init", "operators::operator", "operators::operator.decora
                "metacommand_impl::metacommand", "formats::file_format", "bk_encoding::register", "metacommand_impl::<module>"}
 
 
+_IT_CACHE = {}
+
+
+def import_time_functions(repo):
+    """Qualified names of functions that run only while the package is being imported: the frozen seed table, decorator
+    factories (every use of the name is a decorator) with the functions they return, and - transitively - functions all of whose
+    call sites are module top-level code or such functions."""
+    key = id(repo)
+    if key in _IT_CACHE:
+        return _IT_CACHE[key]
+    out = set(IMPORT_TIME)
+    funcs = dict(repo.all_functions())
+    # uses of every simple name: (is_decorator, enclosing function qual or None)
+    uses = {}
+    for mod in repo.modules.values():
+        deco_nodes = set()
+        for n in ast.walk(mod.tree):
+            if isinstance(n, (ast.FunctionDef, ast.ClassDef)):
+                for d in n.decorator_list:
+                    f = d.func if isinstance(d, ast.Call) else d
+                    deco_nodes.add(id(f))
+        for n in ast.walk(mod.tree):
+            nm = n.id if isinstance(n, ast.Name) and isinstance(n.ctx, ast.Load) else (n.attr if isinstance(n, ast.Attribute) and isinstance(n.ctx, ast.Load) else None)
+            if nm is None:
+                continue
+            enc = repo.enclosing_function(n)
+            uses.setdefault(nm, []).append((id(n) in deco_nodes, None if enc is None else f"{mod.name}::{mod.qualname_of.get(id(enc), '?')}", n))
+    changed = True
+    while changed:
+        changed = False
+        for q, fn in funcs.items():
+            if q in out or isinstance(fn, ast.Lambda):
+                continue
+            name = fn.name
+            parent = repo.enclosing_function(fn)
+            if parent is not None:
+                # a nested function returned by an import-time function (the actual decorator of a decorator factory)
+                pq = f"{fn._module.name}::{fn._module.qualname_of.get(id(parent), '?')}"
+                if pq in out and all(isinstance(u[2]._parent, ast.Return) for u in uses.get(name, []) if u[1] == pq) and any(u[1] == pq for u in uses.get(name, [])):
+                    out.add(q)
+                    changed = True
+                continue
+            if "." in q.split("::")[1]:
+                continue            # methods are reached through objects: not decided here
+            us = [u for u in uses.get(name, [])]
+            if not us:
+                continue
+            # every use is a decoration, or a CALL made by import-time code (a bare reference stores the function for later)
+            if all(is_dec or (isinstance(_n._parent, ast.Call) and _n._parent.func is _n and (where is None or where in out)) for is_dec, where, _n in us):
+                out.add(q)
+                changed = True
+    _IT_CACHE[key] = out
+    return out
+
+
 def raise_sites(repo):
     out = []
     for q, fn in repo.all_functions():
@@ -114,13 +169,17 @@ def rule_G2(ck):
     budget = {k: len(v) for k, v in TABLE_BY_SITE.items()}
     budget.update(SITE_COUNTS)
     reach = callgraph.reachable(repo)
+    it = import_time_functions(repo)
     sites = raise_sites(repo)
     used = set()
+    # sites whose own (function, exception) entry exists are matched first; what is left of a module's budget may then cover a
+    # site of the same exception class that a refactoring moved into another function of the same module (extracted helper)
+    sites = sorted(sites, key=lambda s_: 0 if (public_qual(s_[0]), s_[3]) in TABLE_BY_SITE else 1)
     for q, fn, node, exc, guard in sites:
         key = (q, exc, guard)
         pq = public_qual(q)
         verdict = None
-        if q in IMPORT_TIME or pq in IMPORT_TIME or q not in reach:
+        if q in it or pq in it or q not in reach:
             verdict = ("D2", "import-time only / not reachable from an assembly entry point")
         elif exc == "RecoverableError":
             if is_parser_function(repo, q, fn):
@@ -140,6 +199,13 @@ def rule_G2(ck):
             budget[(pq, exc)] -= 1
             verdict = TABLE_BY_SITE[(pq, exc)][0]
             used.add((pq, exc))
+        elif (pq, exc) not in TABLE_BY_SITE:
+            modname = pq.split("::")[0]
+            donors = sorted(k for k, left in budget.items() if left > 0 and k[1] == exc and k[0].split("::")[0] == modname and k in TABLE_BY_SITE)
+            if donors:
+                budget[donors[0]] -= 1
+                d = TABLE_BY_SITE[donors[0]][0]
+                verdict = (d[0], f"moved within the module (entry of {donors[0][0].split('::')[1]}): {d[1]}")
         ck.instance(("raise", q, exc, guard), {"site": q, "raises": exc, "guard": guard[:60], "discharge": verdict[0] if verdict else None}, fn=q)
         if verdict is None:
             what = f"assert {guard}" if exc == "AssertionError" else f"raise {exc}"
@@ -277,6 +343,11 @@ def rule_D3(ck):
 
                 def test_facts(t, table=table, key=key):
                     pos = set()
+                    if isinstance(t, ast.Compare) and len(t.ops) == 1 and isinstance(t.ops[0], ast.NotIn) and norm_text(t.comparators[0]) == table and norm_text(t.left) == key:
+                        return set(), {"member"}        # `if k not in T: return ...` - the rest runs with k in T
+                    if isinstance(t, ast.UnaryOp) and isinstance(t.op, ast.Not):
+                        p2, n2 = test_facts(t.operand)
+                        return n2, p2
                     for cmp in ast.walk(t):
                         if isinstance(cmp, ast.Compare) and len(cmp.ops) == 1 and isinstance(cmp.ops[0], ast.In) and norm_text(cmp.comparators[0]) == table and norm_text(cmp.left) == key:
                             pos.add("member")
@@ -286,8 +357,17 @@ def rule_D3(ck):
                 facts = flow.facts_before(fn, node, lambda x: set(), None, test_facts)
                 # the same test may sit in the enclosing `and` chain: `k in T and T[k]...`
                 inline = False
-                p = node._parent
+                p, child = node._parent, node
                 while p is not None and not isinstance(p, ast.stmt):
+                    if isinstance(p, ast.IfExp) and child is p.body:
+                        for v in _conj(p.test):
+                            if isinstance(v, ast.Compare) and len(v.ops) == 1 and isinstance(v.ops[0], ast.In) and norm_text(v.comparators[0]) == table and norm_text(v.left) == key:
+                                inline = True       # T[k] if k in T else ...
+                    if isinstance(p, ast.IfExp) and child is p.orelse:
+                        t_ = p.test
+                        if isinstance(t_, ast.Compare) and len(t_.ops) == 1 and isinstance(t_.ops[0], ast.NotIn) and norm_text(t_.comparators[0]) == table and norm_text(t_.left) == key:
+                            inline = True           # ... if k not in T else T[k]
+                    child = p
                     if isinstance(p, ast.BoolOp) and isinstance(p.op, ast.And):
                         for v in p.values:
                             if isinstance(v, ast.Compare) and isinstance(v.ops[0], ast.In) and norm_text(v.comparators[0]) == table and norm_text(v.left) == key:
@@ -296,6 +376,15 @@ def rule_D3(ck):
                 ck.instance(("getitem", q, table, key, node.lineno), None, fn=q)
                 if not inline and facts is not None and "member" not in facts:
                     ck.violation(node, f"{table}[{key}] is not dominated by '{key} in {table}': a missing name raises KeyError (internal error)", construct=f"{table}[{key}] without membership test")
+
+
+def _conj(t):
+    if isinstance(t, ast.BoolOp) and isinstance(t.op, ast.And):
+        out = []
+        for v in t.values:
+            out += _conj(v)
+        return out
+    return [t]
 
 
 def always_leaves(stmts):
@@ -432,6 +521,38 @@ def parser_closure(repo, start):
     return seen
 
 
+def _block_accepts(repo, clsname):
+    """compile_block([one statement of class clsname]) reaches that class's compile routine (abstract execution; the routines are stubbed)"""
+    from ..engine.interp import Rec, Raised, Unsupported
+    from ..engine import sym
+    from .world import eager_interp, emit_report_summary, Shapes
+    I = eager_interp(repo)
+    hits = []
+    stub = lambda tag: (lambda I_, fn_, a, k: hits.append(tag) or b"")
+    I.summaries = {"reports::emit_report": emit_report_summary, "compiler::Compiler.compile_insn": stub("Instruction"), "compiler::Compiler.compile_word_list": stub("WordList"),
+                   "compiler::Compiler.compile_label": stub("Label"), "compiler::Compiler.compile_assignment": stub("Assignment")}
+
+    def thunk():
+        del hits[:]
+        sh = Shapes(I)
+        T = lambda n: I.module_get("types", n)
+        tok = {"Instruction": lambda: sh.mk(T("Instruction"), None, None, sh.symbol("nop"), []),
+               "WordList": lambda: sh.mk(T("WordList"), None, None, [sh.number("1", 1)]),
+               "Label": lambda: sh.mk(T("Label"), None, None, "lab", False),
+               "Assignment": lambda: sh.mk(T("Assignment"), None, None, sh.symbol("x"), sh.number("1", 1), False)}.get(clsname)
+        if tok is None:
+            return None
+        comp = I.instantiate(I.module_get("compiler", "Compiler"), [], {})
+        block = sh.mk(T("CodeBlock"), None, None, [tok()])
+        I.call_method(comp, "compile_block", [{"context": "file", "link_base": {"promise": sym.var("P", "obj"), "set_where": None}}, block, 0])
+        return list(hits)
+    try:
+        ps = I.explore(thunk)
+    except Unsupported:
+        return False
+    return bool(ps) and all(p.kind == "return" and p.value == [clsname] for p in ps)
+
+
 def rule_G10(ck):
     repo = ck.repo
     # (a) compile_block's statement dispatch vs what parser.code builds
@@ -454,6 +575,9 @@ def rule_G10(ck):
     if len(universe) < 4:
         ck.unknown(f"statement classes built by parser.code not recognised: {sorted(universe)}")
     missing = universe - handled
+    if missing:
+        # no isinstance chain (a dispatch table, a visitor ...): decide by executing compile_block on one statement of each class
+        missing = {c for c in missing if not _block_accepts(repo, c)}
     if missing:
         ck.violation(fn, f"compile_block does not handle statement class(es) {sorted(missing)} that the parser builds" + ("; they run into 'assert False'" if has_else_assert else "; they are silently dropped"),
                      construct=f"compile_block dispatch misses {','.join(sorted(missing))}")
